@@ -45,6 +45,8 @@ type schedCfg struct {
 	Cls  string `json:"cls"`  // plain | hostile | newline
 	TCls string `json:"tcls"` // small | wide
 	Cid  int    `json:"cid"`  // concretization id: schedules with the same cid get the same concrete names
+	Torn int    `json:"torn"` // torn-tail class: 0 none, 1 at shutdowns and crashes, 2 also after every write of the snapshot
+	Serf bool   `json:"serf"` // Serf-level history: a real quiet serf.Serf with conf.SnapshotPath (see serf.go of this command)
 }
 
 type sched struct {
@@ -323,6 +325,43 @@ func (r *runner) recover(im image) map[string]interface{} {
 	return st
 }
 
+// torn: the torn-tail crash class.  The snapshot image is cut at EVERY byte offset inside its last line (the
+// fragment keeps 1 .. len-1 bytes of the line, never its newline) and each cut file is replayed by the real
+// NewSnapshotter; base = what the file cut at the start of that line (whole lines only) replays to.  A fragment
+// without its newline is not a recorded line, so every cut must replay to base.
+func (r *runner) torn(im image) (act, obs map[string]interface{}, ok bool) {
+	n := len(im.cur)
+	if !im.curEx || n < 2 || im.cur[n-1] != '\n' {
+		return nil, nil, false
+	}
+	start := bytes.LastIndexByte(im.cur[:n-1], '\n') + 1
+	cutAt := func(l int) map[string]interface{} {
+		return r.recover(image{cur: append([]byte(nil), im.cur[:l]...), curEx: true, tmp: im.tmp, tmpEx: im.tmpEx})
+	}
+	base := cutAt(start)
+	recs := []map[string]interface{}{}
+	seen := map[string]bool{}
+	for l := start + 1; l < n; l++ {
+		st := cutAt(l)
+		b, _ := json.Marshal(st)
+		if !seen[string(b)] {
+			seen[string(b)] = true
+			recs = append(recs, st)
+		}
+	}
+	return map[string]interface{}{"a": "torn", "n": n - 1 - start}, map[string]interface{}{"base": base, "recs": recs}, true
+}
+
+func (r *runner) emitTorn(im image) {
+	if act, obs, ok := r.torn(im); ok {
+		if r.buffer {
+			r.lines = append(r.lines, line{act, obs, 0})
+		} else {
+			r.tr.emit(act, obs)
+		}
+	}
+}
+
 func (r *runner) memObs() map[string]interface{} {
 	st := serf.VerifSnapshotState(r.snap)
 	a := r.k.absState(r.s.Cfg, st.Alive, st.Clock, st.EvClock, st.QClock)
@@ -368,6 +407,9 @@ func (r *runner) after(op serf.VerifOp) {
 		r.lines = append(r.lines, line{act, obs, op.Idx})
 	} else {
 		r.tr.emit(act, obs)
+	}
+	if r.s.Cfg.Torn >= 2 && op.Op == "write" && op.OK && fileTag(op.File) == "cur" {
+		r.emitTorn(im)
 	}
 }
 
@@ -603,6 +645,9 @@ func (r *runner) input(st h.Step, crashAt int, crashSel string) (crashed bool, k
 		r.tr.emit(map[string]interface{}{"a": "done", "of": "shutdown"}, map[string]interface{}{"fwd": true, "mem": mem})
 		r.snap = nil
 		serf.VerifFS.After = nil
+		if r.s.Cfg.Torn >= 1 {
+			r.emitTorn(r.capture())
+		}
 	} else {
 		r.doneLine(st.A(), fwd)
 	}
@@ -637,6 +682,9 @@ func (r *runner) run() {
 			if crashed {
 				r.tr.emit(map[string]interface{}{"a": "crash", "k": k}, 0)
 				im := r.images[k]
+				if r.s.Cfg.Torn >= 1 {
+					r.emitTorn(im)
+				}
 				if st.A() == "shutdown" { // the process image is gone already
 					r.snap = nil
 					serf.VerifFS.After = nil
@@ -657,6 +705,9 @@ func (r *runner) run() {
 			k := serf.VerifFS.Ops()
 			r.tr.emit(map[string]interface{}{"a": "crash", "k": k}, 0)
 			im := r.capture()
+			if r.s.Cfg.Torn >= 1 {
+				r.emitTorn(im)
+			}
 			r.abandon()
 			r.newRoot(&im)
 			up = false
@@ -703,6 +754,11 @@ func child(in, out, work string, from int) {
 		s := scheds[i]
 		fmt.Printf("BEGIN %d\n", i)
 		rng := rand.New(rand.NewSource(h.Seed()*1000003 + int64(s.Cfg.Cid)))
+		if s.Cfg.Serf {
+			runSerf(s, tr, work, rng)
+			fmt.Printf("END %d\n", i)
+			continue
+		}
 		k := concretize(s.Cfg, rng)
 		tr.emit(map[string]interface{}{"a": "reset", "id": s.ID, "cfg": k.resetCfg(s.Cfg)}, 0)
 		r := &runner{s: s, k: k, tr: tr, work: work, recC: map[string]map[string]interface{}{}}
